@@ -141,7 +141,7 @@ func buildSigned(r *core.Rand, kind string, ht txscript.SigHashType, nIn, nOut, 
 	}
 
 	switch kind {
-	case "p2pk", "p2pkh", "p2pkh-u", "multisig", "p2sh-p2pkh", "p2sh-multisig":
+	case "p2pk", "p2pkh", "p2pkh-u", "multisig", "p2sh-p2pkh", "p2sh-multisig", "multisig-merge", "p2sh-multisig-merge":
 		res.form = "legacy"
 		keys := map[string]keyT{}
 		comp := map[string]bool{}
@@ -160,9 +160,14 @@ func buildSigned(r *core.Rand, kind string, ht txscript.SigHashType, nIn, nOut, 
 			must(err)
 			return s
 		}
+		var multiAddrs []string
+		merge := strings.HasSuffix(kind, "-merge")
 		mkMulti := func() []byte {
 			n := 1 + r.Intn(3)
 			m := 1 + r.Intn(n)
+			if merge { // 2-of-3 signed in two rounds by different key holders
+				n, m = 3, 2
+			}
 			var addrs []*address.AddressPubKey
 			for i := 0; i < n; i++ {
 				k := newKey(r)
@@ -171,6 +176,7 @@ func buildSigned(r *core.Rand, kind string, ht txscript.SigHashType, nIn, nOut, 
 				keys[a.EncodeAddress()] = k
 				comp[a.EncodeAddress()] = true
 				addrs = append(addrs, a)
+				multiAddrs = append(multiAddrs, a.EncodeAddress())
 			}
 			s, err := txscript.MultiSigScript(addrs, m)
 			must(err)
@@ -189,9 +195,9 @@ func buildSigned(r *core.Rand, kind string, ht txscript.SigHashType, nIn, nOut, 
 			pkScript = mkPKH(true)
 		case "p2pkh-u":
 			pkScript = mkPKH(false)
-		case "multisig":
+		case "multisig", "multisig-merge":
 			pkScript = mkMulti()
-		case "p2sh-p2pkh", "p2sh-multisig":
+		case "p2sh-p2pkh", "p2sh-multisig", "p2sh-multisig-merge":
 			if kind == "p2sh-p2pkh" {
 				redeem = mkPKH(true)
 			} else {
@@ -207,7 +213,26 @@ func buildSigned(r *core.Rand, kind string, ht txscript.SigHashType, nIn, nOut, 
 			sdb = txscript.ScriptClosure(func(address.Address) ([]byte, error) { return redeem, nil })
 		}
 		spent[idx].PkScript = pkScript
-		ss, err := txscript.SignTxOutput(params, tx, idx, pkScript, ht, kdbFor(keys, comp), sdb, nil)
+		var ss []byte
+		var err error
+		if merge {
+			// two signers holding one key each (two of the three, in either order); the second
+			// merges its signature into the script produced by the first
+			a, b := r.Intn(3), r.Intn(3)
+			for b == a {
+				b = r.Intn(3)
+			}
+			only := func(i int) map[string]keyT {
+				return map[string]keyT{multiAddrs[i]: keys[multiAddrs[i]]}
+			}
+			var first []byte
+			first, err = txscript.SignTxOutput(params, tx, idx, pkScript, ht, kdbFor(only(a), comp), sdb, nil)
+			if err == nil {
+				ss, err = txscript.SignTxOutput(params, tx, idx, pkScript, ht, kdbFor(only(b), comp), sdb, first)
+			}
+		} else {
+			ss, err = txscript.SignTxOutput(params, tx, idx, pkScript, ht, kdbFor(keys, comp), sdb, nil)
+		}
 		if err != nil {
 			res.err = true
 			return res
@@ -448,12 +473,13 @@ func mutate(r *core.Rand, kind string, tx *wire.MsgTx, spent []*wire.TxOut, idx 
 }
 
 var signKinds = []string{"p2pk", "p2pkh", "p2pkh-u", "multisig", "p2sh-p2pkh", "p2sh-multisig", "legacy-codesep",
+	"multisig-merge", "p2sh-multisig-merge",
 	"p2wpkh", "p2wsh", "p2wsh-codesep", "p2wsh-multisig", "p2tr-key", "p2tr-script"}
 
 func genSign(g *core.Gen) {
 	r := g.R
 	definedHT := []txscript.SigHashType{1, 2, 3, 0x81, 0x82, 0x83}
-	for k := 0; k < g.N(260, 2600); k++ {
+	for k := 0; k < g.N(390, 3900); k++ {
 		kind := signKinds[k%len(signKinds)]
 		nIn, nOut := 1+r.Intn(3), r.Intn(4)
 		idx := r.Intn(nIn)
